@@ -288,19 +288,6 @@ theorem childrenLoop_invisible_cons (st : Style) (ind : Nat) (s : Stmt) (ss : St
 
 /-! placeholders never reach the output -/
 
-/-- All opaque texts of a selector. -/
-def simpleTexts : List Simple → List Str
-  | [] => []
-  | .text s :: r => s :: simpleTexts r
-  | .placeholder _ :: r => simpleTexts r
-
-def compTexts : List Component → List Str
-  | [] => []
-  | .comb c :: r => [c] :: compTexts r
-  | .compound ss :: r => simpleTexts ss ++ compTexts r
-
-def selTexts (sel : Selector) : List Str := (sel.map (fun cx => compTexts cx.comps)).flatten
-
 theorem pct_compoundOut (ss : List Simple) (hv : compoundInvisible ss = false)
     (h : ∀ s ∈ simpleTexts ss, '%' ∉ s) : '%' ∉ compoundOut ss := by
   have key : '%' ∉ (ss.map Simple.out).flatten := by
